@@ -287,6 +287,16 @@ def rule_one_snapshot(ctx, r):
             cfs.where)
     mt = any(isinstance(n, ast.Attribute) and n.attr == "st_mtime" for m in cfs.methods.values() for n in ast.walk(m.node))
     r.check(mt, con + "::mtime", "modification time = st_mtime", "the recorded time is not the file's modification time (st_mtime)", cfs.where)
+    nofollow = []
+    for m in cfs.methods.values():
+        for c in _calls(m.node):
+            cn = idx.canon(c.func, m.module) if isinstance(c.func, (ast.Name, ast.Attribute)) else None
+            if cn in ("os.lstat", "os.path.lexists") or (isinstance(c.func, ast.Attribute) and c.func.attr == "lstat") or any(
+                    k.arg == "follow_symlinks" and isinstance(k.value, ast.Constant) and k.value.value is False for k in c.keywords):
+                nofollow.append(c)
+    r.check(not nofollow, con + "::follows-links", "existence and time are those of the file a path denotes (symbolic links are followed)",
+            "the snapshot stats the link itself, not the file it points to: a modified source that is declared through a symbolic link never makes its consumers stale",
+            loc(nofollow[0], cfs.module) if nofollow else cfs.where)
     for key in ("gwf.plugins.status:status", "gwf.plugins.run:run"):
         f = idx.func(key)
         ctor = [n for n in walk_no_nested(f.node) if isinstance(n, ast.Assign) and isinstance(n.value, ast.Call)
@@ -379,7 +389,8 @@ def run(ctx):
     r1 = ctx.rule("R1", "path table of should_run: up to date exactly when spec unchanged, every output exists, at least one output, no input strictly newer")
     rule_should_run_table(ctx, r1)
     r2 = ctx.rule("R2", "the staleness test is max(mtime of ALL inputs) > min(mtime of ALL outputs), strict", min_instances=3)
-    rule_comparison(ctx, r2)
+    from .evalhelpers import should_run_witness
+    ctx.structural_or_witness(r2, rule_comparison, lambda: should_run_witness(ctx), "src/gwf/scheduling.py::should_run", both=True)
     r3 = ctx.rule("R3", "existence of all outputs is established before their times are read; the spec test comes first", min_instances=3)
     rule_guard_order(ctx, r3)
     r4 = ctx.rule("R4", "decision and effect code read target files only through the flattened accessors (shape independence)")
@@ -393,6 +404,8 @@ def run(ctx):
     r7 = ctx.rule("R7", "spec clause: unchanged iff a record exists and equals the hash of the current spec; off => never stale", min_instances=3)
     rule_spec_clause(ctx, r7)
     rule_hash_after_accept(ctx, r7)
+    from .shared import rule_config_switch
+    rule_config_switch(ctx, r7, "use_spec_hashes", "get_spec_hashes chooses between the file-backed and the no-op hash store")
     # status mapping: completed <=> not should_run for UNKNOWN/COMPLETED backend states with no pending deps comes from the C02 table
     r8 = ctx.rule("R8", "no job / finished job and no pending dependency: shown completed and not submitted iff should_run is False")
     from .schedtable import rule_decision_table
